@@ -749,7 +749,7 @@ class Field:
     ):
         self.name = name
         self.description = description
-        self.deprecated = bool(deprecation_reason)
+        self.deprecated = deprecation_reason is not None
         self.deprecation_reason = deprecation_reason
         self.resolver = resolver
         self.subscription_resolver = subscription_resolver
